@@ -229,6 +229,12 @@ func extractCase(r *rng, target int, fields []modbus.Field, fluent bool, ms uint
 }
 
 func extractCorpus(r *rng) {
+	for t := 4; t < 8; t++ {
+		for _, fs := range siblingCorpus() {
+			extractCase(r, t, fs, false, 0, 0, 0, 0)
+			extractCase(r, t, fs, true, 5, 0, 0, 0)
+		}
+	}
 	for t := 0; t < 8; t++ {
 		single := modbus.FieldTypeUint16
 		if t < 4 {
@@ -317,6 +323,9 @@ func streamExtract(seed uint64, thorough bool) {
 			coilShare = 85
 		}
 		fields := genFields(r, sc, cnt, coilShare, r.intn(20) == 0)
+		if r.intn(3) != 0 {
+			fields = addSiblings(r, fields, 25)
+		}
 		if r.intn(40) == 0 {
 			mutateInvalid(r, fields)
 		}
